@@ -34,6 +34,10 @@ CHECKS = {
    text="As C05 for expiries: every E in 1..40 + boundaries in three units, grant phases, and interference patterns (queued request served at expiry, unlock before deadline, re-lock, updates, unlimited, 200 holds on one deadline); plus schedule exploration of unlock racing the expiry sweeper.",
    note="Trusted: instrumenter+runtime; virtual time. Leader only (follower behaviour is C10).",
    technique="bounded exhaustive enumeration of input classes on the implementation under virtual time + deviation-bounded schedule DFS"),
+ "C15": dict(level="model_checking", design="4/C15",
+   text="Explicit-state BFS over histories of value operations carried on lock / re-lock / update / unlock / refused requests by several LockIds of one key; every transition executes the real engine; replies and the key's value are compared with a sequential interpreter written independently of ProcessLockData.",
+   note="Trusted: instrumenter+runtime, RefValue (byte-level register semantics), RefLockDB for which requests take effect; cross-kind operations left open.",
+   technique="explicit-state model checking by replay (canonical-state BFS) with a sequential reference interpreter as oracle"),
 }
 NA_DEFAULT = "check not built yet in this round (planned: see DESIGN.md section 4)"
 
